@@ -20,7 +20,11 @@ from harness.rigs import isolation as iso
 from harness.rigs import isolation_sched as isd
 
 MANIFEST = {
-    "text": "Lean 4 proof, for a generic process model (any number of environment instances, each with environment-level and per-game "
+    "text": "DEEPENED (see design_notes/C04.md): every episode of an episode-scheduled environment is compared with an environment built "
+            "directly from that episode's scenario (C04_skeleton_scheduled_episode_fresh; shipped and generated scenario folders); every run-time "
+            "write of a readable global must be unconditional (C04_gen_writes_unconditional, C04_conditional_write_counterexample) and precede "
+            "the reads of the same operation (C04_gen_write_order + call-event monitor). "
+            "Lean 4 proof, for a generic process model (any number of environment instances, each with environment-level and per-game "
             "state, one store of process globals, operations = straight-line programs), that under the read/write discipline of the "
             "classification (import-only globals never written; re-written-before-read / RNG globals read only after the same operation "
             "wrote them; sink-only globals read only by logging) EVERY schedule of operations leaves an instance's trajectory and state "
@@ -33,10 +37,12 @@ MANIFEST = {
             "C04_gen_rng_safe_partial). PARTIAL: the code violates the discipline in `step` (F-10 NMNE class attributes, F-11 global RNG): "
             "the full statements are kept as C04_FullSkeletonIsolated / C04_FullGenGlobalsSafe / C04_FullGenRngSafe with proved "
             "counterexamples; that the real step/reset behave like their skeleton is validated by the differential rig only.",
-    "note": "C04-specific: the model abstracts an operation to its global access pattern; within one operation the inventory's write is "
-            "assumed to precede the reads (validated by the rig). File/terminal output (SIM_OUTPUT, pcap loggers) is outside the claim.",
+    "note": "C04-specific: the model abstracts an operation to its global access pattern; within one operation the order write-before-read "
+            "is extracted statically for from_config (calls before the assignment) and observed dynamically (profile monitor), not proved for "
+            "the whole call graph. File/terminal output (SIM_OUTPUT, pcap loggers) is outside the claim.",
     "technique": "Lean 4 non-interference proof over a mini imperative language; regenerated shared-state inventory; differential env rig "
-                 "(dirty history, interleaved instances with channel attribution, object-identity disjointness, scheduler copies)",
+                 "(dirty history, interleaved instances with channel attribution, object-identity disjointness, scheduler copies, "
+                 "episode-schedule freshness against directly constructed environments, operation-order monitor); rig sharded over processes",
     "design_ref": "5/C04",
 }
 MODULES = ["PrimaiteModel.Props.C04"]
@@ -517,7 +523,7 @@ def _build_units(ctx: Ctx, rng: Rng) -> List[dict]:
             units.append({"kind": "pair", "label": f"{label_a}|{label_b}#{rep}", "la": label_a, "lb": label_b, "cfg_a": cfg_a, "cfg_b": cfg_b,
                           "rng": rng.fork(f"{label_a}{label_b}{rep}"), "b_first": rng.chance(1, 2), "weight": 25 if "uc7" in label_a + label_b else 10})
     units += _sched_units(ctx, rng.fork("sched"))
-    units += [{"kind": "order", "label": f"order-{i}", "rng": rng.fork(f"order{i}"), "weight": 6} for i in range(ctx.scale(1, 3))]
+    units += [{"kind": "order", "label": f"order-{i}", "which": i % 3, "rng": rng.fork(f"order{i}"), "weight": 6} for i in range(ctx.scale(3, 9))]
     return units
 
 
@@ -682,6 +688,11 @@ def _pairs(ctx: Ctx, rng: Rng):
         a = _aug(strip_rng(uc2), rng.fork("pA"), ctx.scale(40, 90))
         out.append(("uc2-norng", "uc2-thresholds", a, set_thresholds(uc2, TH)))
         out.append(("uc2-norng", "firewall-nmne-same", a, set_nmne(fw, uc2["simulation"]["network"]["nmne_config"])))
+        # A's scenario has NO nmne_config section, B's captures: what A sees right after its OWN construction / reset must not depend on B
+        # (own-build oracle; not F-10, which is about B overwriting what A reads later)
+        nosec = copy.deepcopy(fw)
+        nosec.get("simulation", {}).get("network", {}).pop("nmne_config", None)
+        out.append(("firewall-no-nmne-section", "uc2-captures", _aug(nosec, rng.fork("pN"), 30), uc2))
     if uc2:
         out.append(("uc2", "uc2", uc2, set_seed(uc2, 77)))          # same scenario twice: F-11 territory
     if wl and fw:
@@ -905,7 +916,7 @@ def _do_order(rec: Rec, unit: dict):
     from harness.rigs import isolation_order as iord
     rng = unit["rng"]
     from harness.gen import scenario as gsc
-    choice = rng.below(3)
+    choice = unit["which"]
     if choice == 0:
         label, cfg = "data_manipulation", _load("data_manipulation")
     elif choice == 1:
